@@ -27,6 +27,15 @@ BINOPS = {ast.Add: "+", ast.Sub: "-", ast.Mult: "*", ast.Div: "/", ast.FloorDiv:
           ast.Pow: "**", ast.BitAnd: "&", ast.BitOr: "|", ast.BitXor: "^", ast.LShift: "<<",
           ast.RShift: ">>", ast.MatMult: "@"}
 UNOPS = {ast.USub: "-", ast.UAdd: "+", ast.Not: "not", ast.Invert: "~"}
+
+
+def polarity(t):
+    """Strip leading negations of a test: ``not not not X`` -> (X, False).  Guards and phi/ifexp terms are recorded on the
+    positive test, so ``if c: A else: B`` and ``if not c: B else: A`` have the same frames and the same terms."""
+    pos = True
+    while isinstance(t, tuple) and len(t) == 3 and t[0] == "un" and t[1] == "not":
+        t, pos = t[2], not pos
+    return t, pos
 CMPOPS = {ast.Eq: "==", ast.NotEq: "!=", ast.Lt: "<", ast.LtE: "<=", ast.Gt: ">", ast.GtE: ">=",
           ast.Is: "is", ast.IsNot: "is not", ast.In: "in", ast.NotIn: "not in"}
 
@@ -119,7 +128,8 @@ class FunctionTerms:
             if isinstance(s, ast.If):
                 t1, t2 = _terminates(s.body), _terminates(s.orelse)
                 if t1 != t2:
-                    ctx = ctx + (("if", self._last_test[id(s)], not t1, s, "implied"),)
+                    lt, pos = self._last_test[id(s)]
+                    ctx = ctx + (("if", lt, (not t1) == pos, s, "implied"),)
 
     def _assigned_in(self, body: list[ast.stmt]) -> set[str]:
         out: set[str] = set()
@@ -199,13 +209,13 @@ class FunctionTerms:
             v = self.ev(s.value, env, ctx) if s.value is not None else ("const", None)
             self.emit("return", s, ctx, value=v, value_node=s.value)
         elif isinstance(s, ast.If):
-            t = self.ev(s.test, env, ctx)
-            self._last_test[id(s)] = t
-            self.emit("test", s, ctx, test=t)
+            t, pos = polarity(self.ev(s.test, env, ctx))
+            self._last_test[id(s)] = (t, pos)
+            self.emit("test", s, ctx, test=t, positive=pos)
             e1 = dict(env)
             e2 = dict(env)
-            self._block(s.body, e1, ctx + (("if", t, True, s),))
-            self._block(s.orelse, e2, ctx + (("if", t, False, s),))
+            self._block(s.body, e1, ctx + (("if", t, pos, s),))
+            self._block(s.orelse, e2, ctx + (("if", t, not pos, s),))
             t1 = _terminates(s.body)
             t2 = _terminates(s.orelse)
             if t1 and not t2:
@@ -218,7 +228,8 @@ class FunctionTerms:
                     if a == b and a is not None:
                         env[k] = a
                     else:
-                        env[k] = ("phi", t, a if a is not None else ("unknown", k), b if b is not None else ("unknown", k))
+                        a, b = (a if a is not None else ("unknown", k)), (b if b is not None else ("unknown", k))
+                        env[k] = ("phi", t, a, b) if pos else ("phi", t, b, a)
         elif isinstance(s, (ast.For, ast.AsyncFor)):
             it = self.ev(s.iter, env, ctx)
             uid = self.uid()
@@ -382,13 +393,16 @@ class FunctionTerms:
             left = self.ev(e.left, env, ctx)
             for op, c in zip(e.ops, e.comparators):
                 right = self.ev(c, env, ctx)
-                parts.append(("cmp", CMPOPS.get(type(op), "?"), left, right))
+                o = CMPOPS.get(type(op), "?")
+                # canonical orientation: ``b > a`` is recorded as ``a < b`` (operands are still evaluated in source order)
+                parts.append(("cmp", {">": "<", ">=": "<="}[o], right, left) if o in (">", ">=") else ("cmp", o, left, right))
                 left = right
             return parts[0] if len(parts) == 1 else ("bool", "and", tuple(parts))
         if isinstance(e, ast.IfExp):
-            t = self.ev(e.test, env, ctx)
-            return ("ifexp", t, self.ev(e.body, env, ctx + (("if", t, True, e),)),
-                    self.ev(e.orelse, env, ctx + (("if", t, False, e),)))
+            t, pos = polarity(self.ev(e.test, env, ctx))
+            a = self.ev(e.body, env, ctx + (("if", t, pos, e),))
+            b = self.ev(e.orelse, env, ctx + (("if", t, not pos, e),))
+            return ("ifexp", t, a, b) if pos else ("ifexp", t, b, a)
         if isinstance(e, ast.Lambda):
             uid = self.uid()
             e2 = dict(env)
